@@ -409,6 +409,134 @@ def managerResponseKey (m : EMap) (k : OKey Nat Nat) : Option (OKey Nat Nat) :=
   | .ok k => some k
   | .error _ => none
 
+/-! ## ExecutionBuilder, MultiExchangeTxMap and the engine's routing of a request
+(`barter/src/execution/builder.rs`, `barter/src/engine/execution_tx.rs`,
+`barter/src/engine/action/send_requests.rs`)
+
+A transmitter `UnboundedTx<ExecutionRequest>` is identified with the `ExecutionManager` that owns
+the receiving end: the exchange id its `Client` was constructed for and the
+`ExecutionInstrumentMap` of its indexer. Channel delivery itself (FIFO, receiver alive) is C03. -/
+
+/-- What `add_execution` (builder.rs:145-193) creates for one exchange: the manager behind the new
+transmitter (`client` = the `exchange` argument = the exchange the `Client` talks to; `map` = its
+`instrument_map`), and the `ExchangeIndex` stored beside the transmitter (builder.rs:162,
+`instrument_map.exchange.key`). -/
+structure Link where
+  client : Nat
+  index : Nat
+  map : EMap
+  deriving DecidableEq, Repr, Inhabited
+
+/-- The two ways `add_mock` / `add_live` return `Err` (builder.rs:156, 160-168). -/
+inductive BuildError where
+  | index
+  | duplicate
+  deriving DecidableEq, Repr, Inhabited
+
+/-- `ExecutionBuilder::add_execution` (builder.rs:145-193) on the builder's
+`execution_txs: FnvHashMap<ExchangeId, (ExchangeIndex, Tx)>` (an association list; iteration order
+is never observed): the map is generated first (`?`), then the insert; an existing entry is an
+error. -/
+def addExecution (c : Coll) (added : List (Nat × Link)) (ex : Nat) :
+    Except BuildError (List (Nat × Link)) :=
+  match genMap c ex with
+  | .error _ => .error .index
+  | .ok m =>
+    match added.lookup ex with
+    | some _ => .error .duplicate
+    | none => .ok (added ++ [(ex, { client := ex, index := m.exchange.key, map := m })])
+
+/-- A sequence of `add_mock` / `add_live` calls, in the order they are made (each returns
+`Result<Self, _>`; the first error ends the construction). -/
+def addExecutions (c : Coll) : List (Nat × Link) → List Nat → Except BuildError (List (Nat × Link))
+  | added, [] => .ok added
+  | added, ex :: rest =>
+    match addExecution c added ex with
+    | .error e => .error e
+    | .ok added' => addExecutions c added' rest
+
+/-- `HashMap::remove`. -/
+def removeKey {β : Type} (l : List (Nat × β)) (k : Nat) : List (Nat × β) :=
+  l.filter fun kv => kv.1 != k
+
+/-- The iterator of `ExecutionBuilder::build` (builder.rs:204-223): one pair per exchange of the
+collection, in the order of `instruments.exchanges()`: `(id, None)` when no execution was added for
+it, else the `assert_eq!` on the stored exchange index (`none` = panic) and `(id, Some(tx))`; the
+entry is *removed* from `execution_txs`. -/
+def buildSlots : List KExchange → List (Nat × Link) → Option (List (Nat × Option Link))
+  | [], _ => some []
+  | k :: rest, added =>
+    match added.lookup k.id with
+    | none => (buildSlots rest added).map fun t => (k.id, none) :: t
+    | some l =>
+      if k.key = l.index then
+        (buildSlots rest (removeKey added k.id)).map fun t => (k.id, some l) :: t
+      else none
+
+/-- `IndexMap::insert` with an arbitrary value type. -/
+def upsertG {β : Type} (m : List (Nat × β)) (k : Nat) (v : β) : List (Nat × β) :=
+  match m with
+  | [] => [(k, v)]
+  | (k', v') :: t => if k' = k then (k', v) :: t else (k', v') :: upsertG t k v
+
+/-- `FnvIndexMap::from_iter` (execution_tx.rs:45-52). -/
+def collectG {β : Type} (l : List (Nat × β)) : List (Nat × β) :=
+  l.foldl (fun m kv => upsertG m kv.1 kv.2) []
+
+/-- `MultiExchangeTxMap` (execution_tx.rs:41-43): `FnvIndexMap<ExchangeId, Option<Tx>>`. -/
+abbrev TxMap := List (Nat × Option Link)
+
+/-- `ExecutionBuilder::build` (builder.rs:202-234), the `execution_tx_map` field. `none` = panic. -/
+def buildTxMap (c : Coll) (added : List (Nat × Link)) : Option TxMap :=
+  (buildSlots c.exchanges added).map collectG
+
+/-- `ExecutionBuilder::new(&instruments)`, then one `add_*` per element of `adds` (in this order),
+then `build()`. -/
+def buildExecution (c : Coll) (adds : List Nat) : Except BuildError (Option TxMap) :=
+  match addExecutions c [] adds with
+  | .error e => .error e
+  | .ok added => .ok (buildTxMap c added)
+
+/-- `MultiExchangeTxMap::find` (execution_tx.rs:78-90): `get_index(exchange.index())` — the
+*position* in the index map — then the optional transmitter; an empty slot and a position out of
+range are the same `IndexError::ExchangeIndex`. -/
+def TxMap.find (t : TxMap) (x : Nat) : Except IndexError Link :=
+  match t[x]? with
+  | some (_, some l) => .ok l
+  | _ => .error .exchangeIndex
+
+/-- Where one engine request ends up. -/
+inductive Routed where
+  /-- `find` failed: `send_request` returns the `UnrecoverableEngineError`, nothing is sent -/
+  | noTx
+  /-- the manager of exchange `client` received the request and panicked on a non-configured key
+  (manager.rs:246-251, 261-266); its client is not called -/
+  | managerPanic (client : Nat)
+  /-- the client of exchange `client` was called with `req` -/
+  | delivered (client : Nat) (req : OEvent Nat Nat)
+  deriving DecidableEq, Repr
+
+/-- `send_request` (send_requests.rs:84-87: `execution_txs.find(&request.key.exchange)?.send(..)`)
+followed by the receiving `ExecutionManager::run` step (`managerClientRequest`). -/
+def route (t : TxMap) (o : OEvent Nat Nat) : Routed :=
+  match t.find o.key.exchange with
+  | .error _ => .noTx
+  | .ok l =>
+    match managerClientRequest l.map o with
+    | none => .managerPanic l.client
+    | some r => .delivered l.client r
+
+/-- The key under which the engine sees the answer when the called client echoes the key it was
+handed: indexed by the *same* manager (`managerResponseKey`). `none`: nothing was delivered, or the
+response was filtered. -/
+def routeResponse (t : TxMap) (o : OEvent Nat Nat) : Option (OKey Nat Nat) :=
+  match t.find o.key.exchange with
+  | .error _ => none
+  | .ok l =>
+    match managerClientRequest l.map o with
+    | none => none
+    | some r => managerResponseKey l.map r.key
+
 /-! ## Abstract specification (written from the property text, over the *global* collection; no
 per-exchange tables, no insertion order, no error kinds) -/
 
@@ -458,6 +586,23 @@ def specOrderRequest (c : Coll) (ex : Nat) (o : OEvent Nat Nat) : Option (OEvent
   match specExchangeId c ex o.key.exchange, specInstrumentName c ex o.key.instrument with
   | some id, some name => some { key := { exchange := id, instrument := name, cid := o.key.cid }, state := o.state }
   | _, _ => none
+
+/-- End-to-end routing, from the property text: a request for engine key (exchange index `x`,
+instrument index `i`) reaches the client of exactly the exchange at index `x`, addressed with that
+exchange's id and the exchange name of instrument `i` — provided that exchange is one of those an
+execution link was set up for (`linked`, a set: order and position irrelevant) and the instrument
+belongs to it. No link (or no such exchange): an error and nothing is sent. An instrument of
+another exchange: the exchange's own manager refuses, nothing is sent. -/
+def specRoute (c : Coll) (linked : List Nat) (o : OEvent Nat Nat) : Routed :=
+  match c.exchanges[o.key.exchange]? with
+  | none => .noTx
+  | some k =>
+    if k.id ∈ linked then
+      match specInstrumentName c k.id o.key.instrument with
+      | some n =>
+        .delivered k.id { key := { exchange := k.id, instrument := n, cid := o.key.cid }, state := o.state }
+      | none => .managerPanic k.id
+    else .noTx
 
 /-! Key-replacing traversals: "the same event with every exchange / asset / instrument key
 translated, or nothing if some key does not translate". -/
@@ -569,5 +714,11 @@ def WF (c : Coll) (ex : Nat) : Prop :=
   c.instruments.Pairwise (fun a b => ¬(a.exchange = ex ∧ b.exchange = ex ∧ a.nameExchange = b.nameExchange))
 
 instance (c : Coll) (ex : Nat) : Decidable (WF c ex) := by unfold WF; infer_instance
+
+/-- `WFX c`: what routing needs of the collection — keys are positions and exchange ids are
+pairwise distinct (no condition on names: the outbound direction is index → name only). -/
+def WFX (c : Coll) : Prop := Indexed c ∧ (c.exchanges.map (·.id)).Nodup
+
+instance (c : Coll) : Decidable (WFX c) := by unfold WFX; infer_instance
 
 end BarterModel.ExecMap
